@@ -6,6 +6,7 @@ package varmq
 // made //go:norace by the build step; closures here only call methods.
 
 import (
+	"runtime"
 	"context"
 	"errors"
 	"fmt"
@@ -378,7 +379,7 @@ func newWorld(cfg Cfg, prog *Program) *World {
 	wd := &World{cfg: cfg, prog: prog}
 	wd.root = wd
 	wd.rec = newRecorder(wd)
-	wd.numCPU = int(withSafeConcurrency(0))
+	wd.numCPU = runtime.NumCPU() // the documented meaning of a concurrency < 1, not the library's own helper
 	for i := range prog.Subs {
 		wd.subs = append(wd.subs, &Sub{SubT: prog.Subs[i]})
 	}
